@@ -22,11 +22,12 @@ ASSUMPTIONS = ['io.TextIOBase.read(n) may return fewer than n characters; only a
                'a segment with no non-empty element is compared in normal form only (format() writes "SE*~" for "SE~")',
                'path sources are restricted to ASCII text (the reader opens files as ASCII by design)']
 REQUIRED_COUNTERS = ['texts', 'reads', 'segments-compared', 'straddling-segments', 'sources:path', 'sources:file', 'sources:short-reads', 'sources:resumed', 'roundtrips',
-                     'expected:leading-blank', 'expected:trailing-sep', 'texts:long-segment', 'texts:empty-segment', 'texts:text-after-last-terminator', 'texts:short-later-isa', 'texts:blank-before-later-isa']
+                     'expected:leading-blank', 'expected:trailing-sep', 'texts:long-segment', 'texts:empty-segment', 'texts:text-after-last-terminator', 'texts:short-later-isa', 'texts:blank-before-later-isa', 'texts:element-text-shared-across-texts']
 MIN_CASES = {'quick': 1300, 'thorough': 30000}
 
 CHUNKS = [1, 7, 105, 106, 107, 4096, 8191, 8192, 8193]
 IDS = ['NM1', 'N3', 'REF', 'HL', 'CLM', 'SV1', 'DTP', 'K3', 'B2A', 'LX', 'AK4', 'ZZ', 'X12']
+SHARED = ['A:B>C/D&E|F.G-H', '08:00>17:00', '1(2)3+4,5;6=7?8!9', 'X\\Y<Z>W~V@U', 'K[L]M_N{O}P#Q$R%S']
 ALPHA = 'ABCDEFGHIJKLMNOPQRSTUVWXYZ0123456789 abcxyz.-/()&\'"<>#@'
 
 
@@ -78,6 +79,13 @@ def soup(rng, quick):
                 els.append(sub_t.join(value() for _ in range(rng.randint(2, 4))))
             else:
                 els.append(value())
+        if rng.random() < 0.08:
+            # the same element text in many texts of one process, read under different component separators: how it splits depends on the
+            # separator of THIS text alone
+            v = rng.choice(SHARED)
+            if not any(c in v for c in (seg_t, ele_t, '\r', '\n')):
+                els.insert(rng.randint(0, len(els)), v)
+                feats.add('element-text-shared-across-texts')
         s = ele_t.join([sid] + els)
         if els and rng.random() < 0.08:
             s += ele_t
